@@ -100,30 +100,15 @@ Smallest == CHOOSE x \in Satisfying : \A y \in Satisfying : x <= y
 
 \* for the schedule only "one worker" vs "several" matters
 ModelThreads == {t \in Threads : t = 1} \cup (IF \E t \in Threads : t > 1 THEN {CHOOSE t \in Threads : t > 1} ELSE {})
-VARIABLES phase, gOrd, cOrd, pOrd, sOrd, pending, out, log, nthreads, wit
-vars == <<phase, gOrd, cOrd, pOrd, sOrd, pending, out, log, nthreads, wit>>
+\* res = the observables of the finished run (computed once, when grinding ends)
+VARIABLES phase, gOrd, cOrd, pOrd, sOrd, pending, out, log, nthreads, wit, res
+vars == <<phase, gOrd, cOrd, pOrd, sOrd, pending, out, log, nthreads, wit, res>>
 
 Init == /\ phase = "par"
         /\ gOrd \in Perms(Gates) /\ cOrd \in Perms(ConstVals) /\ pOrd \in Perms(Classes) /\ sOrd \in Perms(OpenSlots)
         /\ pending = 1..NTasks /\ out = [t \in 1..NTasks |-> -1] /\ log = <<>>
         /\ nthreads \in ModelThreads
-        /\ wit = -1
-
-\* a task finishes (any order when there are several workers; in order with one)
-Finish(t) == /\ phase = "par" /\ t \in pending
-             /\ (nthreads = 1 => \A u \in pending : t <= u)
-             /\ pending' = pending \ {t}
-             /\ out' = [out EXCEPT ![t] = TaskResult(t)]
-             /\ log' = IF Mutant = "collect_in_completion_order" THEN Append(log, TaskResult(t)) ELSE log
-             /\ phase' = IF pending' = {} THEN "grind" ELSE "par"
-             /\ UNCHANGED <<gOrd, cOrd, pOrd, sOrd, nthreads, wit>>
-\* find_any: the smallest satisfying candidate with one worker, any satisfying candidate otherwise
-Grind(w) == /\ phase = "grind" /\ w \in Satisfying
-            /\ (nthreads = 1 => w = Smallest)
-            /\ wit' = w /\ phase' = "done"
-            /\ UNCHANGED <<gOrd, cOrd, pOrd, sOrd, pending, out, log, nthreads>>
-Next == (\E t \in 1..NTasks : Finish(t)) \/ (\E w \in Candidates : Grind(w))
-Spec == Init /\ [][Next]_vars
+        /\ wit = -1 /\ res = <<>>
 
 \* ---- observables ---------------------------------------------------------------------------------
 Collected == IF Mutant = "collect_in_completion_order" THEN log ELSE out
@@ -139,6 +124,26 @@ Verify(k, pf) == /\ pf.prefix[2] = k.gates
                  /\ (Mutant = "verifier_wants_smallest_witness" => pf.pow = Smallest)
                  /\ pf.suffix = Suffix(pf.prefix, pf.pow)
 
+Observe(w) == LET k == Key(gOrd, cOrd, pOrd, w)
+              IN [key |-> k, inter |-> Intermediates(sOrd, Collected), proof |-> Proof(k, Collected, w)]
+
+\* a task finishes (any order when there are several workers; in order with one)
+Finish(t) == /\ phase = "par" /\ t \in pending
+             /\ (nthreads = 1 => \A u \in pending : t <= u)
+             /\ pending' = pending \ {t}
+             /\ out' = [out EXCEPT ![t] = TaskResult(t)]
+             /\ log' = IF Mutant = "collect_in_completion_order" THEN Append(log, TaskResult(t)) ELSE log
+             /\ phase' = IF pending' = {} THEN "grind" ELSE "par"
+             /\ UNCHANGED <<gOrd, cOrd, pOrd, sOrd, nthreads, wit, res>>
+\* find_any: the smallest satisfying candidate with one worker, any satisfying candidate otherwise
+Grind(w) == /\ phase = "grind" /\ w \in Satisfying
+            /\ (nthreads = 1 => w = Smallest)
+            /\ wit' = w /\ phase' = "done"
+            /\ res' = Observe(w)
+            /\ UNCHANGED <<gOrd, cOrd, pOrd, sOrd, pending, out, log, nthreads>>
+Next == (\E t \in 1..NTasks : Finish(t)) \/ (\E w \in Candidates : Grind(w))
+Spec == Init /\ [][Next]_vars
+
 \* the canonical run: some fixed iteration orders, tasks in order, smallest witness
 Canon(S) == CHOOSE s \in Perms(S) : TRUE
 RefKey == Key(Canon(Gates), Canon(ConstVals), Canon(Classes), Smallest)
@@ -147,14 +152,13 @@ RefInter == Intermediates(Canon(OpenSlots), RefCols)
 RefProof == Proof(RefKey, RefCols, Smallest)
 
 Done == phase = "done"
-KeyIndependent == Done => Key(gOrd, cOrd, pOrd, wit) = RefKey
-IntermediatesIndependent == Done => Intermediates(sOrd, Collected) = RefInter
-OnlyGrindingDiffers == Done => LET pf == Proof(Key(gOrd, cOrd, pOrd, wit), Collected, wit)
-                               IN /\ pf.prefix = RefProof.prefix
-                                  /\ (wit = RefProof.pow => pf = RefProof)
+KeyIndependent == Done => res.key = RefKey
+IntermediatesIndependent == Done => res.inter = RefInter
+OnlyGrindingDiffers == Done => /\ res.proof.prefix = RefProof.prefix
+                               /\ (wit = RefProof.pow => res.proof = RefProof)
 \* a proof produced under any condition is accepted under any other: the verifying side has the canonical key
-VerdictIndependent == Done => /\ Verify(RefKey, Proof(Key(gOrd, cOrd, pOrd, wit), Collected, wit))
-                              /\ Verify(Key(gOrd, cOrd, pOrd, wit), RefProof)
+VerdictIndependent == Done => /\ Verify(RefKey, res.proof)
+                              /\ Verify(res.key, RefProof)
 TypeOK == /\ phase \in {"par", "grind", "done"} /\ pending \subseteq 1..NTasks
           /\ (Done => wit \in Satisfying)
 
